@@ -109,6 +109,18 @@ def wjudgeLine (line : String) : String :=
         else
           let recv := rest.take (n - 4)
           match rest.drop (n - 4) with
+          | ["err", b, "closed", c] =>
+            -- `wrs` lines: … rest a err b closed c
+            if n < 6 then "violates unparsable-observation" else
+            match (rest.drop (n - 6)).take 2, b.toNat? with
+            | ["rest", a], some b =>
+              match a.toNat? with
+              | some a =>
+                match Spec.WritePath.judgeStalled sent (rest.take (n - 6)) a b (c == "1") with
+                | none => "ok"
+                | some e => s!"violates {e}"
+              | none => "violates unparsable-observation"
+            | _, _ => "violates unparsable-observation"
           | ["rest", a, "err", b] =>
             match a.toNat?, b.toNat? with
             | some a, some b =>
